@@ -5,20 +5,21 @@ set -e
 export GOFLAGS=-mod=mod GOPROXY=off GOSUMDB=off GOTOOLCHAIN=local
 S=$1; MODE=$2
 V=$(dirname $(realpath $0))
+R=${VERIF_REPO:-/repo}
 [ -x $V/bin/vinstr ] || (cd $V/engine/vinstr && go build -o $V/bin/vinstr .)
 mkdir -p $S
 cp -r $V/engine/vs $S/vs
 FLAGS=""
 [ "$MODE" = race ] && FLAGS="-race"
 EXTRA=""
-if [ -d /repo/cmd/scipipe ]; then
-  mkdir -p $S/cmdsrc && cp /repo/cmd/scipipe/*.go $S/cmdsrc/ && rm -f $S/cmdsrc/*_test.go
+if [ -d $R/cmd/scipipe ]; then
+  mkdir -p $S/cmdsrc && cp $R/cmd/scipipe/*.go $S/cmdsrc/ && rm -f $S/cmdsrc/*_test.go
   [ -f $V/harness/cmdhook/hook.go ] && cp $V/harness/cmdhook/hook.go $S/cmdsrc/zz_verif_hook.go
 fi
 $V/bin/vinstr $FLAGS -typecheck-only vs \
   vs=$V/engine/vs=$S/vs \
-  github.com/scipipe/scipipe=/repo=$S/scipipe \
-  github.com/scipipe/scipipe/components=/repo/components=$S/scipipe/components \
+  github.com/scipipe/scipipe=$R=$S/scipipe \
+  github.com/scipipe/scipipe/components=$R/components=$S/scipipe/components \
   vworker=$V/harness=$S/harness
 cat > $S/scipipe/go.mod <<EOM
 module github.com/scipipe/scipipe
